@@ -10,7 +10,31 @@ macro_rules! dd {
         crate::proof!{ #[kani::unwind($unw)] fn [<c02_ $tier _gend_ $f _r>]() { c02d::$f::<{D_R}, {C02}>() } }
     }};
 }
-dd!(t, outer, 6);
-dd!(t, scalars_num, 10);
-dd!(t, lists, 6);
-dd!(t, maps, 5);
+dd!(q, outer, 6);
+dd!(q, scalars_num, 10);
+dd!(q, lists, 6);
+dd!(q, scalars_rest, 7);
+// maps: (r) is conclusive, (w) (BTreeMap iteration inside emitted encode) is not
+crate::proof!{ #[kani::unwind(5)] fn c02_q_gend_maps_r() { c02d::maps::<{D_R}, {C02}>() } }
+crate::proof!{ #[kani::unwind(5)] fn c02_x_gend_maps_w() { c02d::maps::<{D_W}, {C02}>() } }
+#[cfg(kani)]
+mod u {
+    use super::*;
+    pub fn union_b<const D: u8, const W: u8>() { c02d::union_bc::<D, W, 0>() }
+    pub fn union_c<const D: u8, const W: u8>() { c02d::union_bc::<D, W, 1>() }
+    pub fn inner_compact_w<const W: u8>() { c02d::inner_compact::<{D_W}, W, 1>() }
+}
+macro_rules! dd2 {
+    ($tier:ident, $n:ident, $unw:expr, $($f:tt)*) => { paste! {
+        crate::proof!{ #[kani::unwind($unw)] fn [<c02_ $tier _gend_ $n _w>]() { $($f)*::<{D_W}, {C02}>() } }
+        crate::proof!{ #[kani::unwind($unw)] fn [<c04_ $tier _gend_ $n _w>]() { $($f)*::<{D_W}, {C04}>() } }
+        crate::proof!{ #[kani::unwind($unw)] fn [<c02_ $tier _gend_ $n _r>]() { $($f)*::<{D_R}, {C02}>() } }
+    }};
+}
+dd2!(q, union_b, 5, u::union_b);
+dd2!(t, union_c, 5, u::union_c);
+// compact protocol, emitted Inner
+crate::proof!{ #[kani::unwind(7)] fn c02_t_gend_inner_compact_w() { u::inner_compact_w::<{C02}>() } }
+crate::proof!{ #[kani::unwind(7)] fn c04_t_gend_inner_compact_w() { u::inner_compact_w::<{C04}>() } }
+crate::proof!{ #[kani::unwind(7)] fn c02_t_gend_inner_compact_r1() { c02d::inner_compact::<{D_R}, {C02}, 1>() } }
+crate::proof!{ #[kani::unwind(7)] fn c02_t_gend_inner_compact_r5() { c02d::inner_compact::<{D_R}, {C02}, 5>() } }
